@@ -160,8 +160,27 @@ def probe(w0, data, src=None):
     return kind, cookie, w.step_dh_calls, after != before, w
 
 
-def responder_cases(same_spi=False):
+PRE = {'established': False}
+
+
+def fresh():
+    """-> (world, genuine IKE_SA_INIT request of A).  With PRE['established'] the responder already holds an established
+    IKE_SA with that very peer (address pair) - which says nothing about who sends the next cookie-less request"""
+    if not PRE['established']:
+        w = base_world()
+        return w, real_init_request(w)
+    req = variant(real_init_request(base_world()), spi=b'\x42' * 8)
+    w = base_world()
+    w.step(('acquire', 'A', 0, 0))
+    w.deliver_all()
+    if not any(s.state == State.ESTABLISHED for s in w.endpoints['B'].controller.ike_sas):
+        raise HarnessError('could not establish the first IKE_SA')
+    return w, req
+
+
+def responder_cases(same_spi=False, established=False):
     """yields (label, violations list, outcome)"""
+    PRE['established'] = established
     try:
         yield from _responder_cases(same_spi)
     except Evicted as ex:
@@ -169,13 +188,11 @@ def responder_cases(same_spi=False):
 
 
 def _responder_cases(same_spi=False):
-    w = base_world()
-    req = real_init_request(w)
+    w, req = fresh()
     thr = w.endpoints['B'].controller.cookie_threshold
     measured = None
     for n in range(0, thr + 4):
-        wn = base_world()
-        rq = real_init_request(wn)
+        wn, rq = fresh()
         fill_half_open(wn, rq, n, same_spi)
         kind, cookie, dh, grew, _ = probe(wn, rq)
         if kind == 'cookie' and measured is None:
@@ -190,8 +207,7 @@ def _responder_cases(same_spi=False):
     yield ('threshold:measured=%d' % measured, [], 'measured')
     for extra in (0, 1, 2):
         n = measured + extra
-        w = base_world()
-        req = real_init_request(w)
+        w, req = fresh()
         fill_half_open(w, req, n, same_spi)
         # --- no cookie
         kind, cookie, dh, grew, w1 = probe(w, req)
@@ -232,6 +248,15 @@ def _responder_cases(same_spi=False):
             k2, _, _, _, _ = probe(w_acc, data)
             yield ('n=%d:%s' % (n, lab), [], k2)
             yield from lost_clause(n, lab)
+        # ... and the accepted datagram replayed from another configured address: the cookie is not that sender's
+        k3, _, dh3, grew3, _ = probe(w_acc, variant(req, cookies=[good]), OTHER['addr'])
+        v = []
+        if k3 != 'cookie':
+            v.append(('accepted-then-replayed-from-other-address:accepted', 'the accepted request replayed from another address was '
+                      'answered with %s instead of a COOKIE notification only' % k3))
+        if dh3 or grew3:
+            v.append(('accepted-then-replayed-from-other-address:work', 'dh=%d table changed=%s' % (dh3, grew3)))
+        yield ('n=%d:accepted-then-replayed-from-other-address' % n, v, k3)
 
         def must_refuse(lab, data, src=None):
             kind, c, dh, grew, _ = probe(w, data, src)
@@ -404,8 +429,9 @@ def replay(path):
     SRC.update(a=S.IP_A if fam == 4 else V6['A'], b=S.IP_B if fam == 4 else V6['B'])
     OTHER['addr'] = S.IP_C if fam == 4 else V6['C']
     same = 'same-spi-fill:' in want
-    bare = want.split(':', 1)[1].replace('same-spi-fill:', '')
-    for label, v, outcome in list(responder_cases(same_spi=same)) + list(initiator_cases()):
+    est = 'established-first:' in want
+    bare = want.split(':', 1)[1].replace('same-spi-fill:', '').replace('established-first:', '')
+    for label, v, outcome in list(responder_cases(same_spi=same, established=est)) + list(initiator_cases()):
         if label == bare:
             res += v
     for r in res:
@@ -429,6 +455,7 @@ def main():
         _foreign.clear()
         runs += [('v%d:%s' % (fam, l), v, o) for l, v, o in responder_cases()]
         runs += [('v%d:same-spi-fill:%s' % (fam, l), v, o) for l, v, o in responder_cases(same_spi=True) if 'threshold' in l or 'no-cookie' in l]
+        runs += [('v%d:established-first:%s' % (fam, l), v, o) for l, v, o in responder_cases(established=True)]
         runs += [('v%d:%s' % (fam, l), v, o) for l, v, o in initiator_cases()]
     FAMILY['v'] = 4
     for label, v, outcome in runs:
